@@ -9,7 +9,7 @@
   Full statement (goal): `∀ ops, (ops.foldl step init).inv` for the whole mutating API, and
   `isRemoved` monotone along every history.
 -/
-import XotModel.Lemmas.FinvOps6
+import XotModel.Lemmas.FinvReach2
 
 namespace XotModel.Props
 open XotModel
@@ -224,8 +224,8 @@ theorem C04_fresh_handle (f : Forest) (v : Value) (hi : f.Inv) :
 
 /-! ### Histories -/
 
-/-- One step: every call in `Op.core` (everything except `replace`, `element_wrap`,
-    `element_unwrap`, `clone_node`) preserves the invariant, whatever its arguments and outcome. -/
+/-- One step: every call in `Op.core` (everything except `replace` and `clone_node`) preserves the
+    invariant, whatever its arguments and outcome. -/
 theorem C04_step (f : Forest) (o : Op) (h : f.Inv) (hc : o.core = true) : (f.step o).Inv :=
   Forest.step_inv h o hc
 
@@ -245,14 +245,16 @@ example : let ops : List Op := [.newElement 1, .newText ['x'], .newElement 2, .n
     (Forest.init.run ops).isRemoved 2 = true ∧ (Forest.init.run ops).isRemoved 3 = true ∧
     (Forest.init.run ops).allHandles = [0, 4, 1] := by decide
 
-/-! ### `replace`, `element_wrap`, `element_unwrap`, `clone_node`: partial results
+/-! ### `replace`, `element_wrap`, `element_unwrap`, `clone_node`
 
 These four take a node out *without* consolidating its former neighbours (`remove_subtree`,
 raw `detach`, indextree `remove`) and repair the text adjacency in a later step, so their
-intermediate states do not satisfy the invariant in strict mode.  The full statements
-(`C04_replaceStatement` …) are NOT proved; proved is the part where no such intermediate defect
-arises (`Forest.textGap = false`: in particular whenever consolidation has ever been off), the
-handle part for all cases (`C04_step_le` above), and the replay loop of `clone_node`. -/
+intermediate states do not satisfy the invariant in strict mode.  `element_wrap` and
+`element_unwrap` are proved in full.  `C04_replaceStatement` and `C04_cloneNodeStatement` are NOT
+proved; proved for `replace` is the part where no such intermediate defect arises
+(`Forest.textGap = false`: in particular whenever consolidation has ever been off), for
+`clone_node` its replay loop and the non-element cases, and the handle part for all cases
+(`C04_step_le` above). -/
 
 def C04_replaceStatement : Prop := ∀ (f : Forest) (a b : Nat), f.Inv → (f.replace a b).1.Inv
 def C04_elementWrapStatement : Prop := ∀ (f : Forest) (n name : Nat), f.Inv → (f.elementWrap n name).1.Inv
@@ -263,23 +265,22 @@ def C04_cloneNodeStatement : Prop := ∀ (f : Forest) (n : Nat), f.Inv → (f.cl
 theorem C04_replace_partial (f : Forest) (a b : Nat) (h : f.Inv) (hg : f.textGap a = false) :
     (f.replace a b).1.Inv := Forest.replace_inv_of_noGap h a b hg
 
-/-- `element_wrap` when the wrapped node does not sit between two text nodes in strict mode. -/
-theorem C04_elementWrap_partial (f : Forest) (node name : Nat) (h : f.Inv) (hg : f.textGap node = false) :
-    (f.elementWrap node name).1.Inv := Forest.elementWrap_inv_of_noGap h node name hg
+/-- `element_wrap`: full statement (the gap case by evaluating its steps on the explicit forest). -/
+theorem C04_elementWrap (f : Forest) (node name : Nat) (h : f.Inv) : (f.elementWrap node name).1.Inv :=
+  Forest.elementWrap_inv h node name
+
+theorem C04_elementWrapStatement_holds : C04_elementWrapStatement := fun f n name h => C04_elementWrap f n name h
 
 /-- The guard is vacuous once consolidation has ever been off. -/
 theorem C04_textGap_off (f : Forest) (a : Nat) (h : f.everOff = true) : f.textGap a = false := by
   unfold Forest.textGap; cases f.ctx? a <;> simp [h]
 
-/-- `element_unwrap`: the refusals and the childless case (which is `remove`). -/
-theorem C04_elementUnwrap_partial (f : Forest) (node : Nat) (h : f.Inv)
-    (hc : f.isElement node = false ∨ f.firstChild node = none ∨
-      (f.parent? node = none ∧ (f.firstChild node).isSome = true)) :
-    (f.elementUnwrap node).1.Inv := by
-  rcases hc with hc | hc | hc
-  · exact Forest.elementUnwrap_refused_inv h node (Or.inl hc)
-  · exact Forest.elementUnwrap_inv_of_childless h node hc
-  · exact Forest.elementUnwrap_refused_inv h node (Or.inr hc)
+/-- `element_unwrap`: full statement (`remove_element` evaluated on the explicit forest, then the
+    two consolidations at the seams). -/
+theorem C04_elementUnwrap (f : Forest) (node : Nat) (h : f.Inv) : (f.elementUnwrap node).1.Inv :=
+  Forest.elementUnwrap_inv h node
+
+theorem C04_elementUnwrapStatement_holds : C04_elementUnwrapStatement := fun f n h => C04_elementUnwrap f n h
 
 /-- The replay loop of `clone_node` (`new_node` + `any_append` per source node) preserves the
     invariant; `clone_node` of a document or of a leaf node does; for an element the state before
